@@ -14,6 +14,7 @@ ASSUMPTIONS = [
     'the strict reading care == (u1 xor u0) is false for the pinned code on almost all relations (DESIGN.md C14)',
     'per bit-shape (number of input / output bits); relation fully symbolic',
     'make_functions is verified against the CONTRACT of extract_function (stub), not its body',
+    'back-end specific behaviour (dd.cudd.restrict vs the restrict-free path) and its independence of what ran before in the process: bounded (40 / 400 random relations per order, fresh interpreter)',
 ]
 EXPLANATION = (
     'extract_function is re-extracted with its `for z in inputs` loop cut at the invariant (p,n disjoint; forced-1 inputs in p; '
@@ -72,6 +73,9 @@ def families(tier, seed):
                 return harness.verify(cfn.h_make_functions, sh, params, kind='context')
             out.append(dict(name=f'make_functions (last output ignored by r) {sh.name}',
                             run=run, label='per-shape'))
+    for order in ('cudd,autoref,cudd', 'autoref,cudd,autoref'):
+        out.append(dict(name=f'make_functions on both back ends in one process, order {order}',
+                        run=cfn.backend_sequence(seed, 40 if tier == 'quick' else 400, order), label='bounded'))
     return out
 
 
